@@ -18,6 +18,10 @@ package eval
 //@ # function itself adds, the `new` method it registers and the defined-class entry must be keyed
 //@ # by that node; the evaluator calls in the body may define other (nested) classes.
 //@ func (*ti/eval.Class).classIdentifierProcessing
+//@   # C16: `class << self` works on the enclosing body's context (a pointer): a visibility section opened
+//@   # inside it ends with it
+//@   paired[C16] StartPrivate EndPrivate
+//@   paired[C16] StartProtected EndProtected
 //@   requires wfP(p) && ctx != nil
 //@   ensures wfP(p)
 //@   eosexit
@@ -158,6 +162,10 @@ package eval
 //@   inline 8 2
 
 //@ func (*ti/eval.Module).classIdentifierProcessing
+//@   # C16: `class << self` works on the enclosing body's context (a pointer): a visibility section opened
+//@   # inside it ends with it
+//@   paired[C16] StartPrivate EndPrivate
+//@   paired[C16] StartProtected EndProtected
 //@   requires wfP(p)
 //@   eosexit
 //@   inline 8 2
@@ -260,3 +268,15 @@ package eval
 //@   inline 2 1
 //@   callsite[C16] SetClassMethodT ctx.IsDefineStatic && a_frame == ctx.frame && a_class == ctx.class && a_isPrivate == ctx.IsPrivate && a_methodT == methodT
 //@   callsite[C16] SetMethodT !ctx.IsDefineStatic && a_frame == ctx.frame && a_targetClass == ctx.class && a_isPrivate == ctx.IsPrivate && a_methodT == methodT
+
+//@ # C17: every block - with or without parameters - gets a snapshot of the frame table before its
+//@ # body runs and hands back the function that restores it
+//@ func (*ti/eval.Do).prepareBlockScope
+//@   requires wfP(p)
+//@   inline 2 1
+//@   ensures[C17] isnil(result1) ==> called(DeepCopyTFrame) && called(makeRestoreFunc)
+//@   callsite[C17] makeRestoreFunc a_tFrame == tFrame
+//@ func (*ti/eval.Do).makeRestoreFunc$1
+//@   sitesonly
+//@   inline 2 1
+//@   callsite[C17] RestoreFrame a_currentFrame == base.TFrame && a_originalFrame == tFrame
